@@ -141,6 +141,21 @@ fn trunc_to(ns: i128, precision: Option<u8>) -> i128 {
     }
 }
 
+/// serde: the serialised form is the default printed form (as a string) and deserialises to an
+/// equal value, from text and from bytes
+fn serde_roundtrip<T>(v: &T, text: &str, what: &str) -> CaseResult
+where
+    T: serde::Serialize + serde::de::DeserializeOwned + PartialEq + std::fmt::Debug,
+{
+    let json = serde_json::to_string(v).map_err(|e| Failure::new(format!("serde-serialize-err:{what}"), format!("{v:?}: {e}")))?;
+    ensure!(json == format!("\"{text}\""), format!("serde-differs-from-display:{what}"), "{v:?} serialises as {json} but prints as {text:?}");
+    let back: T = serde_json::from_str(&json).map_err(|e| Failure::new(format!("serde-deserialize-err:{what}"), format!("{json}: {e}")))?;
+    let back2: T = serde_json::from_slice(json.as_bytes()).map_err(|e| Failure::new(format!("serde-deserialize-err:{what}"), format!("{json} (bytes): {e}")))?;
+    let back3: T = serde_json::from_value(serde_json::Value::String(text.to_string())).map_err(|e| Failure::new(format!("serde-deserialize-err:{what}"), format!("{json} (owned string): {e}")))?;
+    ensure!(&back == v && &back2 == v && &back3 == v, format!("serde-roundtrip:{what}"), "{v:?} -> {json} -> {back:?} / {back2:?} / {back3:?}");
+    Ok(())
+}
+
 fn test_civil(c: &CivilCase, cx: &mut Cx) -> CaseResult {
     let ns: i128 = c.ns.parse().unwrap();
     let ts = gen::mk_ts(ns);
@@ -171,6 +186,39 @@ fn test_civil(c: &CivilCase, cx: &mut Cx) -> CaseResult {
         Some((civil, o, _)) => ensure!(civil - o.unwrap_or(0) as i128 * NS_PER_SEC == ns, "timestamp-offset-independent-reader", "{text:?} denotes a different instant to an independent reader"),
         None => fail!("timestamp-offset-not-rfc3339", "{text:?} is not RFC 3339"),
     }
+    {
+        // the same text by the other public routes
+        use jiff::fmt::temporal::Pieces;
+        let pr = DateTimePrinter::new();
+        let s2 = pr.timestamp_with_offset_to_string(&ts, off);
+        let mut s3 = String::new();
+        let _ = pr.print_timestamp_with_offset(&ts, off, &mut s3);
+        ensure!(s2 == text && s3 == text, "timestamp-with-offset-routes-differ", "{ts} at {off}: display_with_offset {text:?}, printer {s2:?}, print_ {s3:?}");
+        let p = Pieces::from((ts, off));
+        ensure!(p.to_string() == text, "pieces-from-timestamp-offset-print", "{ts} at {off}: Pieces prints {:?}, Display prints {text:?}", p.to_string());
+        let zulu = ts.to_string();
+        let mut s4 = String::new();
+        let _ = pr.print_timestamp(&ts, &mut s4);
+        ensure!(s4 == zulu && pr.timestamp_to_string(&ts) == zulu && Pieces::from(ts).to_string() == zulu, "timestamp-routes-differ", "{ts:?}: Display {zulu:?}, print_timestamp {s4:?}, Pieces {:?}", Pieces::from(ts).to_string());
+        let pp = Pieces::parse(&text).map_err(|e| Failure::new("pieces-parse-err", format!("{text:?}: {e}")))?;
+        let back = pp.to_numeric_offset().and_then(|o| o.to_timestamp(pp.date().to_datetime(pp.time().unwrap_or(Time::midnight()))).ok());
+        ensure!(back == Some(ts), "pieces-timestamp-roundtrip", "{text:?}: through Pieces = {back:?}, want {ts}");
+        if let Some(p) = c.precision {
+            let a = format!("{ts:.*}", p as usize);
+            let b = DateTimePrinter::new().precision(Some(p)).timestamp_to_string(&ts);
+            ensure!(a == b, "display-precision-differs-from-printer", "{ts:?}: format!(\"{{:.{p}}}\") = {a:?}, printer = {b:?}");
+        }
+    }
+    // Display precision above nine digits is documented to mean nine (lossless), however large
+    {
+        const BIG: [usize; 16] = [9, 10, 19, 100, 255, 256, 257, 264, 265, 300, 511, 512, 768, 1024, 4096, 65535];
+        let n = BIG[(ns.unsigned_abs() % BIG.len() as u128) as usize];
+        let nine = DateTimePrinter::new().precision(Some(9));
+        let a = format!("{ts:.*}", n);
+        ensure!(a == nine.timestamp_to_string(&ts) && a.parse::<Timestamp>().ok() == Some(ts), "display-large-precision", "{ts:?}: format!(\"{{:.{n}}}\") = {a:?}");
+        let b = format!("{:.*}", n, ts.display_with_offset(off));
+        ensure!(b == nine.timestamp_with_offset_to_string(&ts, off) && b.parse::<Timestamp>().ok() == Some(ts), "display-large-precision", "{ts:?} at {off}: format!(\"{{:.{n}}}\") = {b:?}");
+    }
     // civil types
     let (y, m, d, tod) = crate::props::c02::ref_civil(ns, c.off);
     let date: Date = gen::mk_date(y as i16, m as i8, d as i8);
@@ -182,6 +230,35 @@ fn test_civil(c: &CivilCase, cx: &mut Cx) -> CaseResult {
     ensure!(ttext.parse::<Time>().ok() == Some(time), "time-roundtrip", "{time:?} -> {ttext:?} -> {:?}", ttext.parse::<Time>());
     let dttext = dt.to_string();
     ensure!(dttext.parse::<DateTime>().ok() == Some(dt), "datetime-roundtrip", "{dt:?} -> {dttext:?} -> {:?}", dttext.parse::<DateTime>());
+    {
+        let pr = DateTimePrinter::new();
+        let (mut a, mut b, mut cc) = (String::new(), String::new(), String::new());
+        let _ = (pr.print_date(&date, &mut a), pr.print_time(&time, &mut b), pr.print_datetime(&dt, &mut cc));
+        ensure!(a == dtext && b == ttext && cc == dttext, "civil-print-routes-differ", "{dt}: print_date {a:?} print_time {b:?} print_datetime {cc:?}");
+        use jiff::fmt::temporal::Pieces;
+        ensure!(Pieces::from(date).to_string() == dtext && Pieces::from(dt).to_string() == dttext, "pieces-from-civil-print", "{dt}: Pieces prints {:?} / {:?}", Pieces::from(date).to_string(), Pieces::from(dt).to_string());
+        let pp = Pieces::parse(&dttext).map_err(|e| Failure::new("pieces-parse-err", format!("{dttext:?}: {e}")))?;
+        ensure!(pp.date() == date && pp.time() == Some(time) && pp.offset().is_none() && pp.time_zone_annotation().is_none(), "pieces-civil", "{dttext:?}: Pieces = {pp:?}");
+        ensure!(dttext.as_bytes().len() == dttext.len() && DateTimeParser::new().parse_datetime(dttext.as_bytes()).ok() == Some(dt), "datetime-roundtrip", "{dttext:?} as bytes");
+        {
+            const BIG: [usize; 16] = [9, 10, 19, 100, 255, 256, 257, 264, 265, 300, 511, 512, 768, 1024, 4096, 65535];
+            let n = BIG[(ns.unsigned_abs() % BIG.len() as u128) as usize];
+            let nine = DateTimePrinter::new().precision(Some(9));
+            let (a, b) = (format!("{dt:.*}", n), format!("{time:.*}", n));
+            ensure!(a == nine.datetime_to_string(&dt) && a.parse::<DateTime>().ok() == Some(dt) && b == nine.time_to_string(&time) && b.parse::<Time>().ok() == Some(time), "display-large-precision", "{dt:?}: format!(\"{{:.{n}}}\") = {a:?} / {b:?}");
+        }
+        if let Some(p) = c.precision {
+            let a = format!("{dt:.*}", p as usize);
+            let b = DateTimePrinter::new().precision(Some(p)).datetime_to_string(&dt);
+            let a2 = format!("{time:.*}", p as usize);
+            let b2 = DateTimePrinter::new().precision(Some(p)).time_to_string(&time);
+            ensure!(a == b && a2 == b2, "display-precision-differs-from-printer", "{dt:?}: format!(\"{{:.{p}}}\") = {a:?} / {a2:?}, printer = {b:?} / {b2:?}");
+        }
+    }
+    serde_roundtrip(&ts, &ts.to_string(), "Timestamp")?;
+    serde_roundtrip(&date, &dtext, "Date")?;
+    serde_roundtrip(&time, &ttext, "Time")?;
+    serde_roundtrip(&dt, &dttext, "DateTime")?;
     // printer options: the parsed value equals the original truncated to the precision
     let printer = DateTimePrinter::new().precision(c.precision).separator(c.sep).lowercase(c.lower);
     let parser = DateTimeParser::new();
@@ -325,6 +402,70 @@ fn test_zoned(c: &ZonedCase, cx: &mut Cx) -> CaseResult {
                     Err(e) => fail!(format!("zoned-reparse-err:parser={cname}{tag}"), "{ctx}: DateTimeParser(offset_conflict={cname}, disambiguation={dname}): {e}"),
                 }
             }
+        }
+    }
+    // the other public routes to the same printed form and back: the Write-based printer into
+    // each writer adapter, Display with a precision, bytes input, an explicit database, and the
+    // Pieces view of the text
+    {
+        use jiff::fmt::temporal::Pieces;
+        let printer = DateTimePrinter::new();
+        let mut buf = String::new();
+        let mut bytes: Vec<u8> = vec![];
+        let mut io = jiff::fmt::StdIoWrite(gen::Trickle::new(1 + (ns.unsigned_abs() % 7) as usize));
+        let mut fm = jiff::fmt::StdFmtWrite(String::new());
+        let ok = printer.print_zoned(&zdt, &mut buf).is_ok() && printer.print_zoned(&zdt, &mut bytes).is_ok() && printer.print_zoned(&zdt, &mut io).is_ok() && printer.print_zoned(&zdt, &mut fm).is_ok();
+        ensure!(ok && buf == text && bytes == text.as_bytes() && io.0.buf == text.as_bytes() && fm.0 == text, format!("print_zoned-differs-from-display{tag}"), "{ctx}: print_zoned wrote {buf:?} / {:?} / {:?} / {:?}", String::from_utf8_lossy(&bytes), io.0.text(), fm.0);
+        if let Some(p) = c.precision {
+            let a = format!("{zdt:.*}", p as usize);
+            let b = DateTimePrinter::new().precision(Some(p)).zoned_to_string(&zdt);
+            ensure!(a == b, format!("display-precision-differs-from-printer{tag}"), "{ctx}: format!(\"{{:.{p}}}\") = {a:?} but the printer with precision {p} gives {b:?}");
+        }
+        {
+            const BIG: [usize; 16] = [9, 10, 19, 100, 255, 256, 257, 264, 265, 300, 511, 512, 768, 1024, 4096, 65535];
+            let n = BIG[(ns.unsigned_abs() % BIG.len() as u128) as usize];
+            let a = format!("{zdt:.*}", n);
+            let b = DateTimePrinter::new().precision(Some(9)).zoned_to_string(&zdt);
+            ensure!(a == b && a.parse::<Zoned>().ok().map(|x| x.timestamp().as_nanosecond()) == Some(ns), format!("display-large-precision{tag}"), "{ctx}: format!(\"{{:.{n}}}\") = {a:?}");
+            let pz = jiff::fmt::temporal::Pieces::from(&zdt);
+            let c2 = format!("{pz:.*}", n);
+            ensure!(c2 == b, format!("display-large-precision{tag}"), "{ctx}: Pieces format!(\"{{:.{n}}}\") = {c2:?}");
+        }
+        let via_bytes = DateTimeParser::new().parse_zoned(text.as_bytes());
+        let via_db = DateTimeParser::new().parse_zoned_with(jiff::tz::db(), &text);
+        for (name, got) in [("bytes", via_bytes), ("parse_zoned_with(db)", via_db)] {
+            match got {
+                Ok(b2) => ensure!(b2.timestamp().as_nanosecond() == ns && b2.offset() == zdt.offset() && b2.time_zone() == zdt.time_zone(), format!("zoned-roundtrip-instant:{name}{tag}"), "{ctx}: via {name} parses back to {b2}"),
+                Err(e) => fail!(format!("zoned-reparse-err:{name}{tag}"), "{ctx}: via {name}: {e}"),
+            }
+        }
+        let pieces = Pieces::parse(&text).map_err(|e| Failure::new(format!("pieces-parse-err{tag}"), format!("{ctx}: Pieces::parse: {e}")))?;
+        ensure!(pieces.date() == zdt.date() && pieces.time() == Some(zdt.time()), format!("pieces-civil{tag}"), "{ctx}: Pieces date/time = {} {:?}", pieces.date(), pieces.time());
+        let ptz = pieces.to_time_zone().ok().flatten();
+        ensure!(ptz.as_ref() == Some(zdt.time_zone()), format!("pieces-time-zone{tag}"), "{ctx}: Pieces::to_time_zone = {ptz:?}");
+        let ptz = pieces.to_time_zone_with(jiff::tz::db()).ok().flatten();
+        ensure!(ptz.as_ref() == Some(zdt.time_zone()), format!("pieces-time-zone{tag}"), "{ctx}: Pieces::to_time_zone_with(db) = {ptz:?}");
+        if let Some(po) = pieces.to_numeric_offset() {
+            ensure!((po.seconds() as i64 - off as i64).abs() <= 30 && (subminute || po.seconds() as i64 == off as i64), format!("pieces-offset{tag}"), "{ctx}: Pieces offset {po} for real offset {off}s");
+        } else {
+            ensure!(off == 0 && text.contains("Z["), format!("pieces-offset{tag}"), "{ctx}: Pieces has no numeric offset");
+        }
+        let ptext = pieces.to_string();
+        let ptext2 = printer.pieces_to_string(&pieces);
+        let mut ptext3 = String::new();
+        let _ = printer.print_pieces(&pieces, &mut ptext3);
+        ensure!(ptext == text && ptext2 == text && ptext3 == text, format!("pieces-print{tag}"), "{ctx}: parsed pieces print as {ptext:?} / {ptext2:?} / {ptext3:?}");
+        let from_z = Pieces::from(&zdt);
+        ensure!(from_z.to_string() == text, format!("pieces-from-zoned-print{tag}"), "{ctx}: Pieces::from(&zoned) prints {:?}", from_z.to_string());
+        ensure!(from_z.clone().into_owned().to_string() == text, format!("pieces-from-zoned-print{tag}"), "{ctx}: Pieces::from(&zoned).into_owned() prints differently");
+    }
+    {
+        let json = serde_json::to_string(&zdt).map_err(|e| Failure::new(format!("serde-serialize-err:Zoned{tag}"), format!("{ctx}: {e}")))?;
+        ensure!(json == format!("\"{text}\""), format!("serde-differs-from-display:Zoned{tag}"), "{ctx}: serialises as {json}");
+        let b: Zoned = serde_json::from_str(&json).map_err(|e| Failure::new(format!("serde-deserialize-err:Zoned{tag}"), format!("{ctx}: {e}")))?;
+        let b2: Zoned = serde_json::from_slice(json.as_bytes()).map_err(|e| Failure::new(format!("serde-deserialize-err:Zoned{tag}"), format!("{ctx} (bytes): {e}")))?;
+        for x in [&b, &b2] {
+            ensure!(x.timestamp().as_nanosecond() == ns && x.offset() == zdt.offset() && x.time_zone() == zdt.time_zone() && x.datetime() == zdt.datetime(), format!("serde-roundtrip:Zoned{tag}"), "{ctx}: deserialises to {x}");
         }
     }
     // independent reader on the RFC 3339 prefix
